@@ -150,3 +150,65 @@ extern "C" void h_c19c_traits_roundtrip()
     WITNESS("round trip");
     VERIF_END();
 }
+
+// C19.f: the generic container path (count chunk, then one chunk per element; std::insert_iterator)
+// and std::pair: std::list<short> from arbitrary bytes throws or holds exactly the elements the
+// archive contains; the untrusted 64-bit count can never make it read outside the archive.
+extern "C" void h_c19f_list_arbitrary()
+{
+    cppcms::archive &a = *new cppcms::archive();
+    unsigned n;
+    make_archive(a, n);
+    std::list<short> &v = *new std::list<short>();
+    try {
+        cppcms::archive_traits<std::list<short> >::load(v, a);
+        CHECKM(a.ptr_ <= a.buffer_.size(), "read position left the archive");
+        // count chunk = 4 + 8 bytes, every element chunk = 4 + 2 bytes
+        CHECKM(12 + v.size() * 6 <= n, "loaded more elements than the archive holds");
+        unsigned long long cnt = 0;
+        for (int i = 7; i >= 0; i--) cnt = (cnt << 8) | (unsigned char)a.buffer_[4 + i];
+        CHECKM(cnt == v.size(), "number of loaded elements differs from the stored count");
+        unsigned k = 0;
+        for (std::list<short>::const_iterator it = v.begin(); it != v.end() && k < 4; ++it, ++k) {
+            unsigned short e = (unsigned char)a.buffer_[12 + 6 * k + 4] | ((unsigned char)a.buffer_[12 + 6 * k + 5] << 8);
+            CHECKM((unsigned short)*it == e, "loaded element differs from the archive bytes (or order changed)");
+        }
+        if (v.size() == 2) WITNESS("two elements");
+        WITNESS("loaded");
+    } catch (cppcms::archive_error const &) {
+        WITNESS("archive_error");
+    } catch (std::exception const &) {
+    }
+    VERIF_END();
+}
+
+// C19.g: round trip through the generic container path and std::pair
+extern "C" void h_c19g_container_roundtrip()
+{
+    unsigned k = verif_param(0);
+    cppcms::archive &a = *new cppcms::archive();
+    a.reserve(64);
+    std::list<short> &v = *new std::list<short>();
+    for (unsigned i = 0; i < k; i++) v.push_back((short)nondet_u16());
+    std::pair<int, unsigned char> &p = *new std::pair<int, unsigned char>((int)nondet_u32(), nondet_u8());
+    long long arr[2] = { (long long)nondet_u64(), (long long)nondet_u64() };
+    cppcms::archive_traits<std::list<short> >::save(v, a);
+    cppcms::archive_traits<std::pair<int, unsigned char> >::save(p, a);
+    cppcms::archive_traits<long long[2]>::save(arr, a);
+    a.mode(cppcms::archive::load_from_archive);
+    std::list<short> &v2 = *new std::list<short>();
+    v2.push_back(7);   // previous content must be replaced, not appended to
+    std::pair<int, unsigned char> &p2 = *new std::pair<int, unsigned char>(0, 0);
+    long long arr2[2] = { 0, 0 };
+    cppcms::archive_traits<std::list<short> >::load(v2, a);
+    cppcms::archive_traits<std::pair<int, unsigned char> >::load(p2, a);
+    cppcms::archive_traits<long long[2]>::load(arr2, a);
+    CHECKM(v2.size() == k, "container round trip changed the number of elements");
+    std::list<short>::const_iterator i1 = v.begin(), i2 = v2.begin();
+    for (unsigned i = 0; i < k && i < 4; i++, ++i1, ++i2) CHECKM(*i1 == *i2, "container round trip changed an element or the order");
+    CHECKM(p2.first == p.first && p2.second == p.second, "pair round trip changed a member");
+    CHECKM(arr2[0] == arr[0] && arr2[1] == arr[1], "array round trip changed an element");
+    CHECKM(a.eof(), "archive not fully consumed");
+    WITNESS("round trip");
+    VERIF_END();
+}
